@@ -9,12 +9,23 @@
 (*                                                                         *)
 (* BEHAVIOUR.  The user writes a BUILD PROGRAM (script), one instruction   *)
 (* per constructor call:                                                   *)
-(*   mesh | const m | coef m | vcoef m | scoef m m' | geo m | index         *)
+(*   mesh | const m | coef m | vcoef m | tcoef m | scoef m m' | geo m      *)
+(*   | index                                                               *)
 (*       (terminals: read the current counter of their class and increment *)
-(*       it; scoef = coefficient on the mixed space over the               *)
-(*       MeshSequence([m, m']))                                            *)
-(*   idx a i | comp a k | sum a b | prod a b | zeromul a | cond a b c      *)
-(*   | var a                                                               *)
+(*       it; vcoef / tcoef = vector / rank-2 tensor valued; scoef =        *)
+(*       coefficient on the mixed space over the MeshSequence([m, m']))    *)
+(*   idx a i | idx2 a i j | comp a k | grad a | sum a b | prod a b         *)
+(*   | zeromul a | cond a b c | var a | integ a m                          *)
+(*       idx / idx2 = the subscript a[i] / a[i, j] of ANY vector / tensor  *)
+(*       valued expression, as coded in Expr.__getitem__ +                 *)
+(*       create_slice_indices: an index of the subscript that is a free    *)
+(*       index of `a` or occurs a second time in the subscript is summed,  *)
+(*       one IndexSum per such index, nested IN THE ORDER OF THE SUBSCRIPT *)
+(*       (GetItem); with grad this is a.dx(i, j) = grad(grad(a))[i, j].    *)
+(*       integ = a * dx(m), the last instruction of a script: the          *)
+(*       integration domain is any mesh of the script, the other meshes    *)
+(*       of the integrand are numbered after it, sorted by ufl_id          *)
+(*       (Form._analyze_domains).  Without it: a * dx(first mesh).         *)
 (* Then a process with a PRIOR HISTORY runs it: Bump(K, n) creates and     *)
 (* discards n objects of class K (every class at most once; n from        *)
 (* Offsets, or a PLACEMENT: n such that a digit boundary B of Boundaries   *)
@@ -66,6 +77,7 @@ CONSTANTS TC,          \* record: class name -> _ufl_typecode_ of the real class
           MaxBumped,   \* at most this many counters get a non-zero shift in one behaviour
           MaxSteps,    \* length bound of the build program
           Caps,        \* record: instruction name -> maximal number of such instructions in a script
+          Need,        \* record: instruction name -> minimal number of them in a FINISHED script
           Emit         \* TRUE: print every finished behaviour
 
 Kinds == {"Index", "Coefficient", "Constant", "Label", "Mesh"}
@@ -78,9 +90,11 @@ Kinds == {"Index", "Coefficient", "Constant", "Label", "Mesh"}
 (*   n   count (const, coef, label, index) / ufl_id (mesh)                 *)
 (*   d   ufl_id of the mesh (const, coef, geo)                             *)
 (*   ds  ufl_ids of the component meshes (coef on a MeshSequence) / <<>>   *)
-(*   sh  0 scalar / 1 vector valued / 2 mixed over a MeshSequence (coef)   *)
+(*   sh  0 scalar / 1 vector valued / 2 mixed over a MeshSequence / 3      *)
+(*       tensor valued (coef)                                              *)
 (*   ix  index counts (mi: entries, zero: free indices sorted by count)    *)
 (*   ops operands                                                          *)
+(*   k = "form": a * dx(mesh d), ops = <<a>> (not an expression)           *)
 
 Blank == [k |-> "", tc |-> 0, n |-> 0, d |-> 0, ds |-> << >>, sh |-> 0, ix |-> << >>, ops |-> << >>]
 
@@ -95,6 +109,7 @@ FMi(v)           == [Blank EXCEPT !.k = "fmi", !.tc = TC.MultiIndex, !.n = v]   
 ZeroT(fi)        == [Blank EXCEPT !.k = "zero", !.tc = TC.Zero, !.ix = fi]
 Lab(c)           == [Blank EXCEPT !.k = "label", !.tc = TC.Label, !.n = c]
 Op(code, o)      == [Blank EXCEPT !.k = "op", !.tc = code, !.ops = o]
+FormT(a, m)      == [Blank EXCEPT !.k = "form", !.d = m, !.ops = <<a>>]
 
 IsTerminal(t) == t.k # "op"
 
@@ -175,7 +190,8 @@ Sorted2(a, b) == IF Cmp(b, a) < 0 THEN <<b, a>> ELSE <<a, b>>
 (* The build program.  Instructions are records [op, a, b, c]; a, b, c are *)
 (* positions in `store` (0 = unused).  Store entries are                   *)
 (* [ty, fi, t]: ty "mesh"/"index"/"s" (scalar valued expr)/"v" (vector     *)
-(* valued expr), fi = set of free index counts, t = term.                  *)
+(* valued expr)/"t" (rank-2 tensor valued expr)/"form", fi = set of free   *)
+(* index counts, t = term.                                                 *)
 
 \* (comp: c is not a position but the component + 1)
 Ins(o, x, y, z) == [op |-> o, a |-> x, b |-> y, c |-> z]
@@ -193,6 +209,22 @@ RECURSIVE WrapSums(_, _)
 WrapSums(p, ri) == IF ri = << >> THEN p
                    ELSE WrapSums(Op(TC.IndexSum, <<p, Mi(<<ri[1]>>)>>), Tail(ri))
 
+\* a[ii] (Expr.__getitem__, ufl/exproperators.py:_getitem with create_slice_indices of
+\* ufl/index_combination_utils.py; no slices): Indexed(a, ii); an index of the subscript that is a
+\* free index of `a`, or that occurred earlier in the subscript, is a REPEATED index; one IndexSum
+\* per repeated index is applied in the order in which they were met in the subscript
+RECURSIVE RepeatedIn(_, _, _)
+RepeatedIn(ii, p, fi) ==
+  IF p > Len(ii) THEN << >>
+  ELSE (IF ii[p] \in fi \/ (\E q \in 1..(p - 1) : ii[q] = ii[p]) THEN <<ii[p]>> ELSE << >>)
+       \o RepeatedIn(ii, p + 1, fi)
+SeqSet(s) == {s[j] : j \in 1..Len(s)}
+GetItem(A, ii) ==
+  LET rep == RepeatedIn(ii, 1, A.fi)
+  IN [ty |-> "s", fi |-> (A.fi \cup SeqSet(ii)) \ SeqSet(rep),
+      t |-> WrapSums(Op(TC.Indexed, <<A.t, Mi(ii)>>), rep)]
+RankUp(ty) == IF ty = "s" THEN "v" ELSE "t"
+
 \* One constructor call.  st = [store, ctr].
 Exec(st, i) ==
   LET S == st.store
@@ -206,11 +238,16 @@ Exec(st, i) ==
     [] i.op = "const" -> Put(Entry("s", {}, Const(C.Constant, A.t.n)), [C EXCEPT !.Constant = @ + 1])
     [] i.op = "coef"  -> Put(Entry("s", {}, Coef(C.Coefficient, A.t.n, 0)), [C EXCEPT !.Coefficient = @ + 1])
     [] i.op = "vcoef" -> Put(Entry("v", {}, Coef(C.Coefficient, A.t.n, 1)), [C EXCEPT !.Coefficient = @ + 1])
+    [] i.op = "tcoef" -> Put(Entry("t", {}, Coef(C.Coefficient, A.t.n, 3)), [C EXCEPT !.Coefficient = @ + 1])
     [] i.op = "scoef" -> Put(Entry("v", {}, CoefSeq(C.Coefficient, <<A.t.n, B.t.n>>)),
                              [C EXCEPT !.Coefficient = @ + 1])
     [] i.op = "geo"   -> Put(Entry("s", {}, Geo(A.t.n)), C)
     [] i.op = "index" -> Put(Entry("index", {}, IndexT(C.Index)), [C EXCEPT !.Index = @ + 1])
-    [] i.op = "idx"   -> Put(Entry("s", {B.t.n}, Op(TC.Indexed, <<A.t, Mi(<<B.t.n>>)>>)), C)
+    [] i.op = "idx"   -> Put(GetItem(A, <<B.t.n>>), C)                               \* a[i]
+    [] i.op = "idx2"  -> Put(GetItem(A, <<B.t.n, D.t.n>>), C)                        \* a[i, j]
+    \* grad(a) of an expression that is not cellwise constant (see WellFormed)
+    [] i.op = "grad"  -> Put(Entry(RankUp(A.ty), A.fi, Op(TC.Grad, <<A.t>>)), C)
+    [] i.op = "integ" -> Put(Entry("form", {}, FormT(A.t, B.t.n)), C)                \* a * dx(m)
     [] i.op = "comp"  -> Put(Entry("s", {}, Op(TC.Indexed, <<A.t, FMi(i.c - 1)>>)), C)       \* a[c - 1]
     [] i.op = "sum"   -> Put(Entry("s", A.fi, Op(TC.Sum, Sorted2(A.t, B.t))), C)
     [] i.op = "prod"  -> Put(Entry("s", (A.fi \cup B.fi) \ (A.fi \cap B.fi),
@@ -221,12 +258,15 @@ Exec(st, i) ==
     [] i.op = "var"   -> Put(Entry("s", {}, Op(TC.Variable, <<A.t, Lab(C.Label)>>)),  \* variable(a)
                              [C EXCEPT !.Label = @ + 1])
 
+RECURSIVE Terminals(_)      \* all terminals of a term (set)
+Terminals(t) == IF IsTerminal(t) THEN {t} ELSE UNION {Terminals(t.ops[j]) : j \in 1..Len(t.ops)}
+
 \* ---- which instructions are well formed (typing of the real constructors) ----
 Rank(o) == CASE o = "mesh" -> 1 [] o = "const" -> 2 [] o = "coef" -> 3 [] o = "vcoef" -> 4
-             [] o = "scoef" -> 5 [] o = "geo" -> 6 [] o = "index" -> 7 [] OTHER -> 8
+             [] o = "tcoef" -> 5 [] o = "scoef" -> 6 [] o = "geo" -> 7 [] o = "index" -> 8 [] OTHER -> 9
 CountOps(p, o) == Cardinality({j \in 1..Len(p) : p[j].op = o})
 
-IsExpr(e)   == e.ty \in {"s", "v"}
+IsExpr(e)   == e.ty \in {"s", "v", "t"}
 IsZero(e)   == e.t.k = "zero"
 Scalar(e)   == e.ty = "s"
 
@@ -236,15 +276,29 @@ WellFormed(S, p, i) ==
       A == S[i.a]  B == S[i.b]  D == S[i.c]
   IN
   /\ CountOps(p, i.op) < Caps[i.op]
+  /\ CountOps(p, "integ") = 0                 \* a * dx(m) ends the script
   \* declarations in a canonical order of classes (the counters are per class, so interleaving
   \* declarations of different classes changes nothing)
   /\ \A j \in 1..Len(p) : Rank(p[j].op) <= Rank(i.op)
   /\ CASE i.op = "mesh"  -> i.a = 0 /\ i.b = 0 /\ i.c = 0
-       [] i.op \in {"const", "coef", "vcoef", "geo"} -> ok(i.a) /\ A.ty = "mesh" /\ i.b = 0 /\ i.c = 0
+       [] i.op \in {"const", "coef", "vcoef", "tcoef", "geo"} -> ok(i.a) /\ A.ty = "mesh" /\ i.b = 0 /\ i.c = 0
        [] i.op = "scoef" -> ok(i.a) /\ ok(i.b) /\ i.c = 0 /\ A.ty = "mesh" /\ B.ty = "mesh" /\ i.a # i.b
        [] i.op = "index" -> i.a = 0 /\ i.b = 0 /\ i.c = 0
        [] i.op = "comp"  -> ok(i.a) /\ i.b = 0 /\ i.c \in {1, 2} /\ A.ty = "v" /\ A.t.k = "coef"
-       [] i.op = "idx"   -> ok(i.a) /\ ok(i.b) /\ i.c = 0 /\ A.ty = "v" /\ A.t.k = "coef" /\ B.ty = "index"
+       \* a[i], a[i, j]: any vector / tensor valued expression; no index more than twice
+       [] i.op = "idx"   -> ok(i.a) /\ ok(i.b) /\ i.c = 0 /\ A.ty = "v" /\ B.ty = "index"
+       [] i.op = "idx2"  -> ok(i.a) /\ ok(i.b) /\ ok(i.c) /\ A.ty = "t" /\ B.ty = "index" /\ D.ty = "index"
+                            /\ (i.b = i.c => B.t.n \notin A.fi)
+       \* grad(a): a is not cellwise constant (else ufl returns a Zero): it has a coefficient (P1 / P2)
+       \* among its terminals; single-domain coefficients only
+       [] i.op = "grad"  -> ok(i.a) /\ i.b = 0 /\ i.c = 0 /\ A.ty \in {"s", "v"} /\ ~IsZero(A)
+                            /\ (\E x \in Terminals(A.t) : x.k = "coef")
+                            /\ (\A x \in Terminals(A.t) : x.ds = << >>)
+       \* a * dx(m); an integrand with a coefficient on a MeshSequence is integrated over one of
+       \* the component meshes
+       [] i.op = "integ" -> ok(i.a) /\ ok(i.b) /\ i.c = 0 /\ Scalar(A) /\ A.fi = {} /\ ~IsZero(A)
+                            /\ B.ty = "mesh"
+                            /\ (\A x \in Terminals(A.t) : x.ds # << >> => B.t.n \in SeqSet(x.ds))
        \* a + b, a * b: the order in which the two operands are written matters only for ties of
        \* cmp_expr, and ties do not depend on counters: operands in store order
        [] i.op = "sum"   -> ok(i.a) /\ ok(i.b) /\ i.c = 0 /\ i.a < i.b /\ Scalar(A) /\ Scalar(B)
@@ -263,14 +317,19 @@ Used(p, j) == \E q \in (j + 1)..Len(p) : p[q].a = j \/ p[q].b = j \/ (p[q].c = j
 NUnused(p) == Cardinality({j \in 1..Len(p) : ~Used(p, j)})
 Closed(S, p) ==
   /\ Len(S) > 0
-  /\ Scalar(S[Len(S)]) /\ S[Len(S)].fi = {} /\ ~IsZero(S[Len(S)]) /\ S[1].ty = "mesh"
+  /\ S[1].ty = "mesh"
+  /\ \/ S[Len(S)].ty = "form"
+     \/ /\ Scalar(S[Len(S)]) /\ S[Len(S)].fi = {} /\ ~IsZero(S[Len(S)])
+        \* integrated over the first mesh (see `integ`)
+        /\ \A x \in Terminals(S[Len(S)].t) : x.ds # << >> => S[1].t.n \in SeqSet(x.ds)
   /\ NUnused(p) = 1
+  /\ \A o \in DOMAIN Need : CountOps(p, o) >= Need[o]
 
 \* the counters a script reads
 Reads(o, K) ==
     CASE K = "Mesh"        -> o = "mesh"
       [] K = "Constant"    -> o = "const"
-      [] K = "Coefficient" -> o \in {"coef", "vcoef", "scoef"}
+      [] K = "Coefficient" -> o \in {"coef", "vcoef", "tcoef", "scoef"}
       [] K = "Index"       -> o = "index"
       [] K = "Label"       -> o = "var"
 UsesKind(p, K) == \E j \in 1..Len(p) : Reads(p[j].op, K)
@@ -283,9 +342,6 @@ PlacedOffsets(p, K) ==
 
 ----------------------------------------------------------------------------
 (* The signature of  store[last] * dx(store[1])  as coded.                 *)
-
-RECURSIVE Terminals(_)      \* all terminals of a term (set)
-Terminals(t) == IF IsTerminal(t) THEN {t} ELSE UNION {Terminals(t.ops[j]) : j \in 1..Len(t.ops)}
 
 RankIn(x, S) == Cardinality({y \in S : y < x})
 
@@ -355,7 +411,8 @@ FormSig(t, dom) ==
 
 RECURSIVE RunFn(_, _, _)
 RunFn(p, j, st) == IF j > Len(p) THEN st ELSE RunFn(p, j + 1, Exec(st, p[j]))
-SigOfStore(S) == FormSig(S[Len(S)].t, S[1].t.n)
+SigOfStore(S) == LET e == S[Len(S)]
+                 IN IF e.ty = "form" THEN FormSig(e.t.ops[1], e.t.d) ELSE FormSig(e.t, S[1].t.n)
 SigFrom(p, c0) == SigOfStore(RunFn(p, 1, [store |-> << >>, ctr |-> c0]).store)
 
 ----------------------------------------------------------------------------
@@ -426,11 +483,12 @@ Finish ==
   /\ UNCHANGED <<ctr, off, prog, store, pc>>
 
 Next == \/ \E o \in {"mesh", "index"} : Write(Ins(o, 0, 0, 0))
-        \/ \E o \in {"const", "coef", "vcoef", "geo", "zeromul", "var"}, x \in 1..Len(store) :
+        \/ \E o \in {"const", "coef", "vcoef", "tcoef", "geo", "zeromul", "var", "grad"}, x \in 1..Len(store) :
               Write(Ins(o, x, 0, 0))
-        \/ \E o \in {"scoef", "idx", "sum", "prod"}, x \in 1..Len(store), y \in 1..Len(store) :
+        \/ \E o \in {"scoef", "idx", "sum", "prod", "integ"}, x \in 1..Len(store), y \in 1..Len(store) :
               Write(Ins(o, x, y, 0))
-        \/ \E x \in 1..Len(store), y \in 1..Len(store), z \in 1..Len(store) : Write(Ins("cond", x, y, z))
+        \/ \E o \in {"cond", "idx2"}, x \in 1..Len(store), y \in 1..Len(store), z \in 1..Len(store) :
+              Write(Ins(o, x, y, z))
         \/ \E x \in 1..Len(store), z \in {1, 2} : Write(Ins("comp", x, 0, z))
         \/ Close
         \/ \E K \in Kinds : \E n \in Offsets \cup PlacedOffsets(prog, K) : Bump(K, n)
